@@ -94,7 +94,7 @@ func c01R11(c *Ctx) {
 	tp := w.Pkg("internal/tree")
 	info := tp.TypesInfo
 	lits := installedLiterals(w)
-	if len(lits) < 20 {
+	if len(lits) < 8 {
 		c.undecided("C01.R11", "only "+itoa(len(lits))+" callback literals found on the tree builder")
 		return
 	}
